@@ -1,4 +1,5 @@
 pub mod build;
 pub mod cc;
 pub mod dispatch;
+pub mod mutate;
 pub mod program;
